@@ -96,6 +96,11 @@ func run(o *options) int {
 			want[l.Pkg] = true
 		}
 	}
+	for _, pt := range contracts.Perms {
+		if o.prop == "ALL" || o.prop == "WARMUP" || o.prop == "" || hasProp(pt.Props, o.prop) {
+			want[pt.Pkg] = true
+		}
+	}
 	if o.dump != "" {
 		want[strings.SplitN(o.dump, "::", 2)[0]] = true
 	}
@@ -223,6 +228,20 @@ func run(o *options) int {
 		}
 		rep.Obligations = len(c.obls)
 		allObls = append(allObls, c.obls...)
+	}
+	// permission tables (contracts on declarations)
+	for _, pt := range contracts.Perms {
+		if !(o.prop == "ALL" || o.prop == "" || hasProp(pt.Props, o.prop)) {
+			continue
+		}
+		obls, err := g.permObligations(pt)
+		if err != nil {
+			allObls = append(allObls, &Obligation{Name: "permtable:" + pt.Type + "#unsupported", Kind: "unsupported", Fn: pt.Type,
+				Pkg: pt.Pkg, Props: pt.Props, Body: "(assert true)\n", Goal: "permission table could be checked: " + err.Error()})
+			continue
+		}
+		underContract++
+		allObls = append(allObls, obls...)
 	}
 	// lemmas
 	for _, l := range contracts.Lemmas {
